@@ -27,7 +27,7 @@ ATOLS = [0.01, 0.05, 0.2, 0.5]
 
 def cases(tier, seed):
     rng = np.random.default_rng([1, seed])
-    n = 600 if tier == "quick" else 20000
+    n = 600 if tier == "quick" else 40000
     out = []
     for j in range(n):
         cell_cls = planted.CELL_CLASSES[j % len(planted.CELL_CLASSES)]
@@ -103,9 +103,9 @@ def run_case(case, ctx):
 def requirements(stats, tier):
     need = []
     ev = stats.get("contract_eval.C01.in_domain")
-    if ev < (1500 if tier == "quick" else 50000):
+    if ev < (1500 if tier == "quick" else 100000):
         need.append("postcondition evaluated in-domain only %d times" % ev)
-    if stats.get("contract_eval.C01.matches_checked") < (2500 if tier == "quick" else 80000):
+    if stats.get("contract_eval.C01.matches_checked") < (2500 if tier == "quick" else 160000):
         need.append("only %d matches passed through the witness check" % stats.get("contract_eval.C01.matches_checked"))
     if stats.get("contract_eval.C01.find_post") < stats.get("direct_searches") + stats.get("searches_through_replace"):
         need.append("fewer postcondition evaluations than searches: a binding bypasses the contract")
